@@ -416,12 +416,64 @@ def _schema(ctx, mod, up, app):
                construct='row layout in %s' % func.name)
 
 
+def _callers_and_readers(ctx, app):
+    """C18.2 / C18.5 on the two ends of the archive: the daemon hands each
+    archiver its own expiry option, and the reader of the snapshots visits
+    every snapshot."""
+    index = ctx.index
+    daemon = index.module('treadmill.sproc.trace', required=False)
+    if daemon is not None:
+        seen = 0
+        for call in K.calls(daemon.tree):
+            name = K.callee_text(call)
+            for kind in ('trace', 'finished'):
+                if name.endswith('cleanup_%s' % kind) and len(call.args) == 3:
+                    seen += 1
+                    args = [N.txt(a) for a in call.args[1:]]
+                    other = 'finished' if kind == 'trace' else 'trace'
+                    ok = all(a.startswith(kind + '_') for a in args) and \
+                        args[1].endswith('expire_after') and \
+                        not any(other in a for a in args)
+                    ctx.ob('C18.2', 'treadmill.sproc.trace', call, ok,
+                           'cleanup_%s is driven by the %s options (batch '
+                           'size, expiry): %s' % (kind, kind, args),
+                           construct='daemon arguments of cleanup_%s' % kind,
+                           file=daemon.rel)
+        ctx.require(seen == 2, 'cleanup_trace / cleanup_finished calls of '
+                               'the trace daemon')
+    loop_cls = app.classes.get('AppTraceLoop')
+    ctx.require(loop_cls is not None, 'trace.app.zk.AppTraceLoop')
+    reader = loop_cls.methods.get('_process_db_events')
+    ctx.require(reader is not None, 'AppTraceLoop._process_db_events')
+    graph = ctx.cfg(reader)
+    loops = [n for n in graph.nodes if n.kind == 'for' and
+             'TRACE_HISTORY' in K.rtxt(reader, n.ast.iter)]
+    ctx.require(loops, 'loop over the trace snapshots')
+    for loop in loops:
+        early = [e for e in K.loop_exit_edges(loop)
+                 if e.kind not in ('done', 'exc')]
+        body = K.loop_body_nodes(loop)
+        downloads = [n for n in body if any(
+            K.callee_text(c).endswith('download_batch')
+            for c in C.node_calls(n))]
+        skip = K.find_path(loop, [loop], cut_node=lambda n: n in downloads,
+                           cut_edge=lambda e, lp=loop: e.src is lp and
+                           e.kind == 'done', follow_exc=False)
+        ctx.ob('C18.5', reader, loop, not early and bool(downloads) and
+               skip is None,
+               'every snapshot is searched for the events of the instance '
+               '(no early end of the walk: the events of a long-running '
+               'instance are spread over snapshots that need not be '
+               'adjacent)', construct='snapshot walk of the reader')
+
+
 def check(ctx):
     mod, up = _upload(ctx)
     app = _selection(ctx)
     _full_batches(ctx, app)
     _keep_newest(ctx, mod)
     _schema(ctx, mod, up, app)
+    _callers_and_readers(ctx, app)
 
 
 _Z = 'lib/python/treadmill/trace/_zk.py'
